@@ -40,7 +40,7 @@ func busy(dump string) map[string][3]string {
 		}
 		for i := 1; i+1 < len(lines); i += 2 {
 			file := strings.TrimSpace(lines[i+1])
-			if strings.HasPrefix(file, "/repo/") {
+			if strings.HasPrefix(file, RepoDir+"/") {
 				fn := lines[i]
 				if j := strings.LastIndex(fn, "("); j > 0 {
 					fn = fn[:j]
